@@ -1294,16 +1294,11 @@ impl<'de> de::Deserializer<'de> for &mut Deserializer<'de> {
                                         len.checked_mul(7)
                                             .ok_or_else(|| Error::msg("Map length overflow"))?,
                                     )?;
-                                    if key_text_fast {
-                                        self.text_fast_path = true;
-                                    }
-                                    #[cfg(feature = "bignum")]
-                                    if let Some(fast) = value_bignum_fast {
-                                        self.bignum_vec_fast_path = Some(fast);
-                                        self.wire_type = wv.clone();
-                                    }
                                 }
 
+                                // The shortcuts are switched on per key / per value by the
+                                // map accessor: the key shortcut must not leak into the value
+                                // and vice versa.
                                 let result = visitor.visit_map(Compound::new(
                                     self,
                                     Style::Map {
@@ -1311,6 +1306,8 @@ impl<'de> de::Deserializer<'de> for &mut Deserializer<'de> {
                                         expect,
                                         wire,
                                         key_text_fast,
+                                        #[cfg(feature = "bignum")]
+                                        value_bignum_fast,
                                     },
                                 ));
                                 self.text_fast_path = false;
@@ -1458,6 +1455,8 @@ enum Style {
         expect: (Type, Type),
         wire: (Type, Type),
         key_text_fast: bool,
+        #[cfg(feature = "bignum")]
+        value_bignum_fast: Option<BigNumFastPath>,
     },
 }
 
@@ -1734,17 +1733,24 @@ impl<'de> de::MapAccess<'de> for Compound<'_, 'de> {
                 ref expect,
                 ref wire,
                 key_text_fast,
+                #[cfg(feature = "bignum")]
+                value_bignum_fast,
             } => {
                 if *len == 0 {
                     return Ok(None);
                 }
                 *len -= 1;
                 #[cfg(feature = "bignum")]
-                let any_fast = key_text_fast || self.de.bignum_vec_fast_path.is_some();
+                let any_fast = key_text_fast || value_bignum_fast.is_some();
                 #[cfg(not(feature = "bignum"))]
                 let any_fast = key_text_fast;
                 if !any_fast {
                     self.de.add_cost(4)?;
+                }
+                // The big-number shortcut vouches for the value only, never for the key.
+                #[cfg(feature = "bignum")]
+                {
+                    self.de.bignum_vec_fast_path = None;
                 }
                 // Always set text_fast_path based on THIS map's key type. The global
                 // text_fast_path may be true from an enclosing map with text keys; using
@@ -1766,22 +1772,30 @@ impl<'de> de::MapAccess<'de> for Compound<'_, 'de> {
         V: de::DeserializeSeed<'de>,
     {
         match &self.style {
-            Style::Map { expect, wire, .. } => {
+            Style::Map {
+                expect,
+                wire,
+                key_text_fast,
                 #[cfg(feature = "bignum")]
-                let any_fast = self.de.text_fast_path || self.de.bignum_vec_fast_path.is_some();
+                value_bignum_fast,
+                ..
+            } => {
+                #[cfg(feature = "bignum")]
+                let any_fast = *key_text_fast || value_bignum_fast.is_some();
                 #[cfg(not(feature = "bignum"))]
-                let any_fast = self.de.text_fast_path;
+                let any_fast = *key_text_fast;
                 if !any_fast {
                     self.de.add_cost(3)?;
                 }
+                // The text shortcut vouches for the key only; the value is always read at
+                // its own wire and expected types.
+                self.de.text_fast_path = false;
                 #[cfg(feature = "bignum")]
-                let value_fast = self.de.bignum_vec_fast_path.is_some();
-                #[cfg(not(feature = "bignum"))]
-                let value_fast = false;
-                if !value_fast {
-                    self.de.expect_type = expect.1.clone();
-                    self.de.wire_type = wire.1.clone();
+                {
+                    self.de.bignum_vec_fast_path = *value_bignum_fast;
                 }
+                self.de.expect_type = expect.1.clone();
+                self.de.wire_type = wire.1.clone();
                 seed.deserialize(&mut *self.de)
             }
             _ => {
